@@ -92,6 +92,27 @@ Proof.
   - eexists. split; vm_compute; reflexivity.
 Qed.
 
+(* ---- witness 3: the `clean` hypothesis of abs_resize is necessary.  A representation whose last
+        word carries bits above `size` (exactly what createRandomDefaultBitVectorState /
+        createDefinedRandomDefaultBitVectorState produce: they fill whole words) is well-formed,
+        equal (operator==) to its cleaned copy, and yet growing both by resize gives different
+        containers: resize exposes the stale bits instead of zeros. ---- *)
+Definition st_dirty : bvs := {| bsize := 10; planes := [[0x7FF]; [N.ones 64]] |}.
+Definition st_cleaned : bvs := {| bsize := 10; planes := [[0x3FF]; [0x3FF]] |}.
+
+Theorem resize_exposes_stale_tail_refuted :
+  wf st_dirty /\ wf st_cleaned /\ abs st_dirty = abs st_cleaned /\ eqS st_dirty st_cleaned = true
+  /\ abs (resize st_dirty 20) <> resize_spec (abs st_dirty) 20
+  /\ eqS (resize st_dirty 20) (resize st_cleaned 20) = false.
+Proof.
+  assert (W : forall a b, a < 2 ^ 64 -> b < 2 ^ 64 -> wf {| bsize := 10; planes := [[a]; [b]] |}).
+  { intros a b Ha Hb. unfold wf. cbn [bsize planes]. repeat constructor; assumption. }
+  repeat split.
+  - apply W; reflexivity.
+  - apply W; reflexivity.
+  - vm_compute. discriminate.
+Qed.
+
 (* positive sanity: a few literals parse to the expected 0/1/X arrays *)
 Example parse_examples :
   option_map (fun s => print_spec (abs s)) (parseBitVector (list_ascii_of_string "b10X1"))
